@@ -188,8 +188,8 @@ def _siblings(run, mod, forms):
         run.ok('C11-R3', 'sibling bodies', '%d statements identical after removing the penalty' % len(la))
     else:
         diff = [(x, y) for x, y in zip(la, lb) if x != y][:2] or [('length %d' % len(la), 'length %d' % len(lb))]
-        run.fail('C11-R3', mod.name + '|siblings|diverge', mod.relpath, b.lineno,
-                 'invert_sart and invert_constrained_sart differ beyond the penalty term: %s' % diff)
+        # a textual difference is not by itself a behavioural one (R1, R2 and the stopping rule are decided per variant)
+        run.undecided('C11-R3', 'sibling bodies', 'invert_sart and invert_constrained_sart differ beyond the penalty term: %s' % (diff,))
     for name in ('invert_sart', 'invert_constrained_sart'):
         fn = mod.functions[name]
         run.subject('C11-R3')
